@@ -195,6 +195,7 @@ type monitor struct {
 // holdSpinBound bounds every hold (scheduling aid only; when it expires the
 // run is recorded as not fully quiescent and is not judged under family A).
 const holdSpinBound = 400000
+const holdIdlePolls = 3000
 
 func (m *monitor) engineRunning() bool {
 	d := m.drv.Load()
@@ -210,7 +211,23 @@ func (m *monitor) engineRunning() bool {
 // the sending goroutine right after the send) and is back at its select, so
 // the engine goroutine has been started for each of them.
 func (m *monitor) asyncSettled() bool {
-	return m.cnt[pAsyncIdle].Load() == m.cnt[pDrainSignalled].Load()+1
+	// robust against other senders on the enqueue-signal channel: every signal
+	// runAsync received has been handled (it is back at its select) and it
+	// received at least the ones DrainCommandQueue sent
+	sig := m.cnt[pAsyncSignal].Load()
+	return m.cnt[pAsyncIdle].Load() == sig+1 && sig >= m.cnt[pDrainSignalled].Load()
+}
+
+// holdProgress: something observable moved (engine time or any yield counter).
+func (m *monitor) holdProgress() uint64 {
+	var h uint64
+	if m.eng != nil {
+		h = math.Float64bits(float64(m.eng.CurrentTime()))
+	}
+	for i := range m.cnt {
+		h = h*1099511628211 + uint64(m.cnt[i].Load())
+	}
+	return h
 }
 
 func (m *monitor) hold(cond func() bool) {
@@ -218,6 +235,7 @@ func (m *monitor) hold(cond func() bool) {
 		return
 	}
 	m.holdsWaited.Add(1)
+	last, idle := m.holdProgress(), 0
 	for k := 0; k < holdSpinBound; k++ {
 		if k < 200 {
 			runtime.Gosched()
@@ -226,6 +244,14 @@ func (m *monitor) hold(cond func() bool) {
 		}
 		if cond() {
 			return
+		}
+		// the hold is a scheduling aid: when nothing observable has moved for
+		// holdIdlePolls consecutive polls the condition will not come true by
+		// waiting; give up (the run is then not judged under family A)
+		if p := m.holdProgress(); p != last {
+			last, idle = p, 0
+		} else if idle++; idle >= holdIdlePolls {
+			break
 		}
 	}
 	m.holdsExpired.Add(1)
@@ -627,6 +653,112 @@ func setFlags(c caseDesc, r runDesc) {
 	}
 }
 
+// ---------------------------------------------------------------------------
+// stall monitor: a hang is decided by state, not by the wall clock. The
+// simulation is stalled when, over stallObservations consecutive samples, the
+// engine time and every yield-point counter are unchanged AND every goroutine
+// that executes simulator, driver or workload code is parked (blocked in a
+// channel operation, select, WaitGroup, semaphore, mutex or condition
+// variable). A goroutine that is running, runnable, sleeping (harness holds
+// and delays sleep) or in a syscall can still change the state: no verdict.
+
+var (
+	curMon atomic.Pointer[monitor]
+	curEng atomic.Value // sim.Engine
+	curRep atomic.Int64
+)
+
+const (
+	stallSamplePeriod = 250 * time.Millisecond
+	stallObservations = 40
+	exitStalled       = 7
+)
+
+func progressSignature() string {
+	var b strings.Builder
+	fmt.Fprintf(&b, "rep%d", curRep.Load())
+	if e, ok := curEng.Load().(sim.Engine); ok && e != nil {
+		fmt.Fprintf(&b, "|t%x", math.Float64bits(float64(e.CurrentTime())))
+	}
+	if m := curMon.Load(); m != nil {
+		for i := range m.cnt {
+			fmt.Fprintf(&b, "|%d", m.cnt[i].Load())
+		}
+		fmt.Fprintf(&b, "|s%d", m.stalls.Load()+m.sleeps.Load()+m.goscheds.Load())
+	}
+	return b.String()
+}
+
+// allParked inspects a full goroutine dump (see w_c12): every goroutine with a
+// frame of the simulator, the driver or the workload must be parked -- except
+// the stall monitor itself.
+func allParked(dump string) bool {
+	relevantSeen := false
+	for _, blk := range strings.Split(dump, "\n\n") {
+		nl := strings.IndexByte(blk, '\n')
+		if nl < 0 {
+			continue
+		}
+		head, body := blk[:nl], blk[nl:]
+		if strings.Contains(body, "main.stallMonitor") {
+			continue
+		}
+		relevant := strings.Contains(body, "mgpusim/v4/") || strings.Contains(body, "akita/v4/") || strings.Contains(body, "main.")
+		if !relevant {
+			continue
+		}
+		relevantSeen = true
+		lb, rb := strings.IndexByte(head, '['), strings.IndexByte(head, ']')
+		if lb < 0 || rb < lb {
+			return false
+		}
+		state := head[lb+1 : rb]
+		if c := strings.IndexByte(state, ','); c >= 0 {
+			state = state[:c]
+		}
+		switch state {
+		case "chan receive", "chan send", "select", "sync.WaitGroup.Wait", "semacquire", "sync.Mutex.Lock", "sync.RWMutex.Lock", "sync.RWMutex.RLock",
+			"sync.Cond.Wait", "chan receive (nil chan)", "select (no cases)":
+		default:
+			return false
+		}
+	}
+	return relevantSeen
+}
+
+func stallMonitor(rec *vlib.ChildRecorder) {
+	last, same := "", 0
+	for {
+		time.Sleep(stallSamplePeriod)
+		sig := progressSignature()
+		if sig != last {
+			last, same = sig, 0
+			continue
+		}
+		buf := make([]byte, 4<<20)
+		buf = buf[:runtime.Stack(buf, true)]
+		if !allParked(string(buf)) {
+			same = 0
+			continue
+		}
+		same++
+		if same < stallObservations {
+			continue
+		}
+		if progressSignature() != sig {
+			last, same = "", 0
+			continue
+		}
+		dump := string(buf)
+		if len(dump) > 60000 {
+			dump = dump[:60000]
+		}
+		rec.Note("stalled", map[string]any{"repetition": curRep.Load(), "observations": same, "period_ms": stallSamplePeriod.Milliseconds(),
+			"progress_signature": sig, "goroutines": dump})
+		os.Exit(exitStalled)
+	}
+}
+
 func childMain() {
 	rec := vlib.ChildRec()
 	raw, err := os.ReadFile(os.Args[2])
@@ -640,6 +772,7 @@ func childMain() {
 	sim.GetIDGenerator() // lazily initialised without synchronisation
 	setFlags(job.Case, job.Run)
 	rec.Note("started", true)
+	go stallMonitor(rec)
 	reps := job.Run.Reps
 	if reps < 1 {
 		reps = 1
@@ -676,6 +809,7 @@ func childMain() {
 			consumeIDs(k)
 			consumed += k
 		}
+		curRep.Store(int64(rep))
 		res := runOnce(job, rep)
 		res.IDsConsumed = consumed
 		if rep == 0 {
@@ -707,6 +841,8 @@ func runOnce(job childJob, pass int) *childResult {
 	rn := new(runner.Runner).Init()
 	d := rn.Driver()
 	mon.drv.Store(d)
+	curMon.Store(mon)
+	curEng.Store(rn.Engine())
 	if !r.Parallel {
 		mon.eng = rn.Engine()
 		mon.seenTC = map[*sim.TickingComponent]struct{}{}
